@@ -42,7 +42,10 @@ Record J (valid : list Z) (t : list kproc) (fr : frame) (V : list Z) (pm : dict)
   j_tbl : forall p, In p (f_list fr) -> alive t p = true \/ In p V;
   j_h0 : (f_heap0 fr <= n)%nat;
   j_ysorted : StronglySorted Z.gt (map ypid Y);
-  j_yok : Forall (yield_ok valid fr) Y }.
+  j_yok : Forall (yield_ok valid fr) Y;
+  (* a cached PID that was marked as reused at entry is in no list and has no entry in the private copy *)
+  j_mc : forall p, In p (f_marked fr) -> (exists o, dget p (f_cache fr) = Some o) ->
+           dget p pm = None /\ (forall po, ~ In (p, po) rest) /\ ~ In p (map ypid Y) }.
 
 (* what survives when the generator is finished by an exception or a close() *)
 Record Jfin (valid : list Z) (fr : frame) (pm : dict) (Y : list ytriple) : Prop := {
@@ -51,10 +54,15 @@ Record Jfin (valid : list Z) (fr : frame) (pm : dict) (Y : list ytriple) : Prop 
              ((dget p (f_cache fr) = Some o /\ ~ In p (f_marked fr)) \/ (f_heap0 fr <= o)%nat);
   f_ypm : forall y, In y Y -> dget (ypid y) pm = Some (snd (fst y));
   f_ysorted : StronglySorted Z.gt (map ypid Y);
-  f_yok : Forall (yield_ok valid fr) Y }.
+  f_yok : Forall (yield_ok valid fr) Y;
+  f_mc : forall p, In p (f_marked fr) -> (exists o, dget p (f_cache fr) = Some o) ->
+           dget p pm = None /\ ~ In p (map ypid Y) }.
 
 Lemma J_Jfin valid t fr V pm rest Y n : J valid t fr V pm rest Y n -> Jfin valid fr pm Y.
-Proof. intros H. constructor; [apply (j_pm _ _ _ _ _ _ _ _ H)|apply (j_ypm _ _ _ _ _ _ _ _ H)|apply (j_ysorted _ _ _ _ _ _ _ _ H)|apply (j_yok _ _ _ _ _ _ _ _ H)]. Qed.
+Proof.
+  intros H. constructor; [apply (j_pm _ _ _ _ _ _ _ _ H)|apply (j_ypm _ _ _ _ _ _ _ _ H)|apply (j_ysorted _ _ _ _ _ _ _ _ H)|apply (j_yok _ _ _ _ _ _ _ _ H)|].
+  intros p Hm Hc. destruct (j_mc _ _ _ _ _ _ _ _ H p Hm Hc) as [H1 [_ H3]]. now split.
+Qed.
 
 (* ---------------------------------------------------------------- as_dict *)
 Lemma existsb_invalid valid l :
@@ -170,6 +178,9 @@ Section Moves.
     - apply (j_h0 _ _ _ _ _ _ _ _ H).
     - apply (j_ysorted _ _ _ _ _ _ _ _ H).
     - apply (j_yok _ _ _ _ _ _ _ _ H).
+    - intros p Hm Hc. destruct (j_mc _ _ _ _ _ _ _ _ H p Hm Hc) as [H1 [H2 H3]].
+      split; [rewrite dget_ddel; destruct (pid =? p); [reflexivity|exact H1]|].
+      split; [intros po' Hin; apply (H2 po'); now right|exact H3].
   Qed.
 
   Lemma ysorted_push Y pid o i rest po pm n :
@@ -209,6 +220,9 @@ Section Moves.
     - exact (ysorted_push _ _ _ _ _ _ _ _ H).
     - constructor; [|apply (j_yok _ _ _ _ _ _ _ _ H)].
       unfold yield_ok. cbn [ypid fst snd]. split; [exact HL|]. split; [left; now split|exact Hi].
+    - intros p Hmk Hck. destruct (j_mc _ _ _ _ _ _ _ _ H p Hmk Hck) as [H1 [H2 H3]].
+      split; [exact H1|]. split; [intros po' Hin; apply (H2 po'); now right|].
+      cbn [map ypid fst]. intros [He|Hin]; [subst p; apply (H2 (Some o)); now left|contradiction].
   Qed.
 
   (* a new object is made and yielded (no cache entry, or the cached instance carried the reused flag) *)
@@ -251,6 +265,11 @@ Section Moves.
     - exact (ysorted_push _ _ _ _ _ _ _ _ H).
     - constructor; [|apply (j_yok _ _ _ _ _ _ _ _ H)].
       unfold yield_ok. cbn [ypid fst snd]. split; [exact HL|]. split; [right; exact Hh|exact Hi].
+    - intros p Hmk Hck. destruct (j_mc _ _ _ _ _ _ _ _ H p Hmk Hck) as [H1 [H2 H3]].
+      assert (Hne : pid <> p) by (intros ->; apply (H2 po); now left).
+      split; [rewrite dget_dset; apply Z.eqb_neq in Hne; now rewrite Hne|].
+      split; [intros po' Hin; apply (H2 po'); now right|].
+      cbn [map ypid fst]. intros [He|Hin]; [congruence|contradiction].
   Qed.
   (* a new object was made and cached, then as_dict failed for a reason other than NoSuchProcess *)
   Lemma Jfin_new pm pid po rest Y n :
@@ -269,6 +288,9 @@ Section Moves.
       now apply (j_ypm _ _ _ _ _ _ _ _ H).
     - apply (j_ysorted _ _ _ _ _ _ _ _ H).
     - apply (j_yok _ _ _ _ _ _ _ _ H).
+    - intros p Hmk Hck. destruct (j_mc _ _ _ _ _ _ _ _ H p Hmk Hck) as [H1 [H2 H3]].
+      assert (Hne : pid <> p) by (intros ->; apply (H2 po); now left).
+      split; [rewrite dget_dset; apply Z.eqb_neq in Hne; now rewrite Hne|exact H3].
   Qed.
 End Moves.
 
